@@ -39,6 +39,17 @@ FAMS = gen_lat.RECT_FAMILIES
 _PER = {'quick': 12, 'thorough': 700}
 
 
+def attach_monitors():
+    from .. import monitors
+    monitors.attach_contracts()
+    monitors.attach_cache_events()
+
+
+def monitor_counts():
+    from .. import monitors
+    return dict(monitors.COUNTS)
+
+
 def plan(tier):
     return [(fam, _PER[tier]) for fam in FAMS]
 
